@@ -1,0 +1,16 @@
+//go:build verif
+
+// Contracts for package decoders, checked by /verif/govc. Comment-only: no code.
+package decoders
+
+//@ func (d *jsonlineDecoder) scanAmmos
+//@ props C08 C07
+//@ ghost n = len(d.ammos)
+//@ requires imp(n > 0, d.passNum == d.ammoNum / n)
+//@ ensures [count] imp(result1 == nil, d.ammoNum == old(d.ammoNum) + 1)
+//@ ensures [passes] imp(result1 == nil && n > 0, d.passNum == d.ammoNum / n)
+//@ ensures [order] imp(result1 == nil, result0 == d.ammos[old(d.ammoNum) % n])
+//@ ensures [pass-limit] imp(n > 0 && d.config.Passes != 0 && old(d.passNum) >= d.config.Passes, result1 == ErrPassLimit)
+//@ ensures [no-ammo] imp(n == 0, result1 == ErrNoAmmo)
+//@ ensures [error-keeps-counters] imp(result1 != nil, d.ammoNum == old(d.ammoNum) && d.passNum == old(d.passNum))
+//@ modifies d.ammoNum, d.passNum
